@@ -9,18 +9,28 @@ def gen_line(rng):
     fs = []
     pos = 0
     for _ in range(rng.randint(1, 3)):
-        k = rng.choice(["int", "lit", "int"])
+        k = rng.choice(["int", "lit", "int", "int", "lit", "int", "date"])
         fd = {"k": k, "size": rng.randint(2, 5), "start": pos}
+        if k == "date":
+            # a format list whose formats parse the same text differently: what one object reads must not depend on what
+            # another object sharing the Field read before
+            fd = {"k": "date", "size": 10, "start": pos, "formats": rng.choice([["%d/%m/%Y", "%m/%d/%Y"], ["%m/%d/%Y", "%d/%m/%Y"]]), "aslist": True}
         fs.append(fd)
         pos += fd["size"]
     return fs
+
+
+def date_text(rng):
+    return "%02d/%02d/%04d" % (rng.choice([1, 2, 5, 12, 13, 25]), rng.choice([1, 2, 5, 12, 13, 28]), rng.choice([1999, 2020]))
 
 
 def gen_text_delim(rng, fs):
     """a ';'-delimited line, possibly with fewer tokens than fields (absent fields must read as missing)"""
     toks = []
     for fd in fs[: rng.randint(0, len(fs))] if rng.random() < 0.5 else fs:
-        if fd["k"] == "int":
+        if fd["k"] == "date":
+            toks.append(date_text(rng))
+        elif fd["k"] == "int":
             toks.append(str(rng.randint(0, 10 ** (fd["size"] - 1) - 1)) if rng.random() < 0.85 else "x")
         else:
             toks.append("".join(rng.choice("abc") for _ in range(rng.randint(0, fd["size"]))))
@@ -30,7 +40,9 @@ def gen_text_delim(rng, fs):
 def gen_text(rng, fs):
     parts = []
     for fd in fs:
-        if fd["k"] == "int":
+        if fd["k"] == "date":
+            t = date_text(rng)
+        elif fd["k"] == "int":
             t = str(rng.randint(0, 10 ** (fd["size"] - 1) - 1)).rjust(fd["size"]) if rng.random() < 0.85 else "x".rjust(fd["size"])
         else:
             t = "".join(rng.choice("abc") for _ in range(rng.randint(0, fd["size"]))).ljust(fd["size"])
@@ -41,6 +53,8 @@ def gen_text(rng, fs):
 def gen_val(rng, fd):
     if rng.random() < 0.2:
         return None
+    if fd["k"] == "date":
+        return ["date", [rng.choice([1999, 2020]), rng.choice([1, 2, 12]), rng.choice([1, 2, 12, 25]), 0, 0, 0, 0]]
     if fd["k"] == "int":
         return ["int", rng.randint(0, 10 ** (fd["size"] - 1) - 1)]
     return ["str", "".join(rng.choice("xyz") for _ in range(rng.randint(1, fd["size"])))]
